@@ -895,7 +895,9 @@ func (x *rpcRun) query(handler *rpcv10.Handler, node *chain.Node, headNum uint64
 		for _, k := range s.Keys {
 			kf := rpcFeltHex(k)
 			got, trace, err := rpcVerify(proof, ld.StorageRoot, rpcBig(&kf), rpcPedersen)
-			rpcModelSlot(x, &commitment, headRoot, &resp, ld, af, &kf, proof, got, err)
+			if leafOf[s.Addr] != nil { // the contract's proof and leaf data are part of this response
+				rpcModelSlot(x, &commitment, headRoot, &resp, ld, af, &kf, proof, got, err)
+			}
 			if len(trace) > x.st.maxDepth {
 				x.st.maxDepth = len(trace)
 			}
